@@ -696,8 +696,12 @@ func isPureStringHelper(fn *ssa.Function, memo map[*ssa.Function]int, depth int)
 			case *ssa.MapUpdate, *ssa.Send, *ssa.Go, *ssa.Defer, *ssa.MakeClosure:
 				ok = false
 			case *ssa.UnOp:
-				if _, isG := x.X.(*ssa.Global); isG {
-					ok = false // reads shared state
+				if g, isG := x.X.(*ssa.Global); isG {
+					// reads shared state — except a package-level string (a configured directory), which is
+					// not request data and does not make the helper's result depend on another call
+					if bt, isB := g.Type().(*types.Pointer).Elem().Underlying().(*types.Basic); !isB || bt.Info()&types.IsString == 0 {
+						ok = false
+					}
 				}
 			case *ssa.Call:
 				if callee := x.Call.StaticCallee(); callee != nil && core.IsRepoPkg(core.FnPkgPath(callee)) {
